@@ -64,7 +64,7 @@ var exclusions = []struct {
 func opts() aspgen.AspOpts {
 	var o aspgen.AspOpts
 	for _, e := range exclusions {
-		if lib.Known("C16", e.class) {
+		if lib.Known("C16", e.class) || strings.Contains(os.Getenv("VERIF_C16_EXCL"), e.class) || os.Getenv("VERIF_C16_EXCL") == "all" {
 			e.set(&o)
 		}
 	}
